@@ -50,6 +50,7 @@ type KSN struct {
 
 type SN struct {
 	Name string
+	Rs   []SRef          // declared pointer type in slice elements (mixed with the plain *SN references to the same nodes)
 	MS   map[KSN]int     // struct keys containing node pointers
 	MP   map[[1]*SN]bool // array keys of node pointers
 	TU   TUNode
@@ -76,6 +77,18 @@ type IN struct {
 	Anys []interface{}
 	MA   map[string]interface{}
 	Tag  int
+}
+
+// DRef / SRef: DECLARED pointer types (type Ref *Node): same pointers, another static type.
+type DRef *DN
+type SRef *SN
+
+// DN: references of a declared pointer type next to plain ones (copier only, like PN).
+type DN struct {
+	A   DRef
+	B   *DN
+	C   DRef
+	Val int
 }
 
 // PN: plain pointer fields.  The type reaches itself through pointer-to-struct
@@ -475,6 +488,9 @@ func buildSN(g *gen, n int) []*SN {
 		if r.Chance(1, 3) {
 			nd.Box = [1][2]*SN{{pick(i), pick(i)}}
 		}
+		if r.Chance(1, 3) {
+			nd.Rs = []SRef{SRef(pick(i)), SRef(pick(i))}
+		}
 		if r.Chance(1, 4) {
 			nd.MS = map[KSN]int{{K: "a", P: pick(i)}: 1, {K: "b", P: pick(i)}: 2}
 		}
@@ -564,7 +580,7 @@ func buildIN(g *gen, n int) []*IN {
 		if g.r.Chance(g.pnil, 8) {
 			return nil
 		}
-		switch r.Intn(21) {
+		switch r.Intn(22) {
 		case 19:
 			t := g.target(i, n)
 			if t < 0 {
@@ -577,6 +593,8 @@ func buildIN(g *gen, n int) []*IN {
 				t = i
 			}
 			return [][2]*IN{{nodes[t], nil}}
+		case 21:
+			return SRef(sn[r.Intn(len(sn))]) // a declared pointer type as interface payload
 		case 14:
 			return ints[r.Intn(2)]
 		case 15:
@@ -781,6 +799,25 @@ func hasRefKeys(v reflect.Value, seen map[[2]uintptr]bool) bool {
 	return false
 }
 
+func buildDN(g *gen, n int) []*DN {
+	nodes := make([]*DN, n)
+	for i := range nodes {
+		nodes[i] = &DN{Val: i}
+	}
+	for i, nd := range nodes {
+		if t := g.target(i, n); t >= 0 {
+			nd.A = DRef(nodes[t])
+		}
+		if t := g.target(i, n); t >= 0 {
+			nd.B = nodes[t]
+		}
+		if t := g.target(i, n); t >= 0 {
+			nd.C = DRef(nodes[t])
+		}
+	}
+	return nodes
+}
+
 // ---- shape statistics of the generated graph (for the distribution) ----
 
 type shape struct {
@@ -937,6 +974,8 @@ func buildRoot(in input) (reflect.Value, reflect.Type) {
 	case "IN":
 		n := buildIN(g, in.N)[0]
 		p, m, sl = reflect.ValueOf(n), reflect.ValueOf(n.MA), reflect.ValueOf(n.Anys)
+	case "DN":
+		p = reflect.ValueOf(buildDN(g, in.N)[0])
 	default:
 		p = reflect.ValueOf(buildPN(g, in.N)[0])
 	}
@@ -1232,9 +1271,9 @@ func genInputs(r *coqfmt.Rng, n int, tier string) []json.RawMessage {
 		add(input{K: "interior", State: r.U64(), Fam: "IP", N: 1 + r.Intn(4), Mode: r.Intn(2)})
 	}
 	for i := 0; i < n; i++ {
-		fam := []string{"SN", "IN", "IN", "PN"}[r.Intn(4)]
+		fam := []string{"SN", "IN", "IN", "PN", "DN"}[r.Intn(5)]
 		mode := r.Intn(2)
-		if fam == "PN" {
+		if fam == "PN" || fam == "DN" {
 			mode = 0
 		}
 		nn := 1 + r.Intn(maxN)
